@@ -525,6 +525,9 @@ func runScript(seed int64, steps int, sh *sharedInputs, misuse *world) []stepOut
 		if o.name == "DH" && r.Intn(3) != 0 { // modular exponentiation under -race is slow: thin it out
 			o = ops[0]
 		}
+		if sh == nil && o.name == "decode-shared-input" { // cold start: nothing was prepared beforehand
+			o = ops[0]
+		}
 		out = append(out, stepOut{o.name, safely(func() string { return o.f(w) })})
 	}
 	return out
@@ -555,6 +558,44 @@ func makeShared(seed int64) *sharedInputs {
 		}
 	}
 	return sh
+}
+
+// cold start: the goroutines make the very FIRST calls into the library in this process, all at once (whatever the
+// library initialises lazily is initialised under contention); the solo runs for comparison come afterwards
+func coldChild(seed int64, n, steps int) int {
+	seeds := make([]int64, n)
+	for i := range seeds {
+		seeds[i] = seed*1000003 + int64(i)*7919 + 1
+	}
+	conc := make([][]stepOut, n)
+	var wg sync.WaitGroup
+	start := make(chan struct{})
+	for i := range seeds {
+		wg.Add(1)
+		go func(i int) {
+			defer wg.Done()
+			<-start
+			conc[i] = runScript(seeds[i], steps, nil, nil)
+		}(i)
+	}
+	close(start)
+	wg.Wait()
+	bad := 0
+	for i := range seeds {
+		alone := runScript(seeds[i], steps, nil, nil)
+		for j := range alone {
+			if alone[j] != conc[i][j] {
+				fmt.Printf("DIFF goroutine=%d step=%d op=%s alone=%q concurrent(cold start)=%q\n", i, j, alone[j].name, alone[j].out, conc[i][j].out)
+				bad++
+				break
+			}
+		}
+	}
+	if bad > 0 {
+		return 1
+	}
+	fmt.Printf("OK cold-start ops=%d goroutines=%d steps=%d\n", n*steps, n, steps)
+	return 0
 }
 
 func child(seed int64, n, steps int, misuse bool) int {
@@ -636,10 +677,14 @@ func main() {
 	isChild := flag.Bool("child", false, "run the check in this process")
 	self := flag.Bool("selftest", false, "run a deliberate data race (must be reported)")
 	misuse := flag.Bool("misuse", false, "negative control: all goroutines share one pair of SA key objects (a race in the library's use of them must be reported)")
+	cold := flag.Bool("cold", false, "the goroutines make the first calls into the library of this process (lazy initialisation under contention); solo runs afterwards")
 	flag.Parse()
 	if *isChild {
 		if *self {
 			os.Exit(selftest())
+		}
+		if *cold {
+			os.Exit(coldChild(*seed, *n, *steps))
 		}
 		os.Exit(child(*seed, *n, *steps, *misuse))
 	}
